@@ -1,18 +1,6 @@
 #!/bin/sh
 # Offline build of the whole framework from files on disk (MANIFEST.setup_cmd).
-set -e
 cd "$(dirname "$0")"
 export CARGO_NET_OFFLINE=true
-[ -f harness/Cargo.lock ] || cp /repo/Cargo.lock harness/Cargo.lock
-for p in props/C*.py; do
-  id=$(basename "$p" .py)
-  lc=$(echo "$id" | tr 'A-Z' 'a-z')
-  echo "== $id"
-  (cd lean && lake build "LeptosModel.Theorems.$id" "lm_$lc" 2>&1 | tail -3)
-  if grep -q '"hooks": True' "$p"; then
-    (cd harness && RUSTFLAGS="--cfg leptos_verif" CARGO_TARGET_DIR="$PWD/target-verif" cargo build --release --offline -p "hx-$lc" 2>&1 | tail -3)
-  else
-    (cd harness && CARGO_TARGET_DIR="$PWD/target" cargo build --release --offline -p "hx-$lc" 2>&1 | tail -3)
-  fi
-done
+python3 tools/setup_build.py
 echo setup-done
